@@ -1,38 +1,52 @@
 package main
 
 import (
+	"encoding/json"
 	"fmt"
-	"time"
 
+	"github.com/zenon-network/go-zenon/chain/genesis"
 	g "github.com/zenon-network/go-zenon/chain/genesis/mock"
-	"github.com/zenon-network/go-zenon/chain/nom"
+	"github.com/zenon-network/go-zenon/common/db"
 	"verif/lab/node"
 )
 
+func clone(c *genesis.GenesisConfig) *genesis.GenesisConfig {
+	d, _ := json.Marshal(c)
+	o := new(genesis.GenesisConfig)
+	json.Unmarshal(d, o)
+	return o
+}
+func fp(c *genesis.GenesisConfig) string {
+	gen := genesis.NewGenesis(c)
+	return gen.GetGenesisMomentum().Hash.String()[:8] + "/" + db.PatchHash(gen.GetGenesisTransaction().Changes).String()[:8]
+}
 func main() {
-	p, _ := node.New("P", node.Options{Producer: true})
-	defer p.Stop()
-	p.ProduceN(5)
-	all, _ := p.Detailed(2, 6)
-	f, _ := node.New("F", node.Options{})
-	defer f.Stop()
-	node.Clock.Set(p.Frontier().Timestamp.Add(time.Hour))
-	fmt.Println(f.InsertChain(all[:4]))
-	v, _ := node.Wire(all[4])
-	t := time.Unix(time.Now().Add(time.Hour).Unix()/10*10, 0)
-	v.Momentum.Timestamp, v.Momentum.TimestampUnix = &t, uint64(t.Unix())
-	var key = g.PillarKeys[0]
-	for _, k := range g.PillarKeys {
-		if k.Address == all[4].Momentum.Producer() {
-			key = k
-		}
+	node.Quiet()
+	base := clone(g.EmbeddedGenesis)
+	fmt.Println("base", fp(clone(base)), fp(clone(base)))
+	c := clone(base)
+	for i, j := 0, len(c.GenesisBlocks.Blocks)-1; i < j; i, j = i+1, j-1 {
+		c.GenesisBlocks.Blocks[i], c.GenesisBlocks.Blocks[j] = c.GenesisBlocks.Blocks[j], c.GenesisBlocks.Blocks[i]
 	}
-	v.Momentum.Hash = v.Momentum.ComputeHash()
-	v.Momentum.PublicKey = key.Public
-	v.Momentum.Signature = key.Sign(v.Momentum.Hash.Bytes())
-	data, _ := v.Momentum.Serialize()
-	v.Momentum, _ = nom.DeserializeMomentum(data)
-	fmt.Println(v.Momentum.Timestamp, time.Now())
-	err := f.Ver.Momentum(v)
-	fmt.Println("verifier.Momentum:", err)
+	fmt.Println("blocks reversed", fp(c))
+	c = clone(base)
+	p := c.PillarConfig.Pillars
+	p[0], p[len(p)-1] = p[len(p)-1], p[0]
+	fmt.Println("pillars swapped", fp(c))
+	c = clone(base)
+	d := c.PillarConfig.Delegations
+	d[0], d[len(d)-1] = d[len(d)-1], d[0]
+	fmt.Println("delegations swapped", fp(c))
+	c = clone(base)
+	f := c.PlasmaConfig.Fusions
+	f[0], f[len(f)-1] = f[len(f)-1], f[0]
+	fmt.Println("fusions swapped", fp(c))
+	c = clone(base)
+	t := c.TokenConfig.Tokens
+	t[0], t[len(t)-1] = t[len(t)-1], t[0]
+	fmt.Println("tokens swapped", fp(c))
+	if base.SporkConfig != nil {
+		fmt.Println("sporks", len(base.SporkConfig.Sporks))
+	}
+	fmt.Println("legacy", len(base.PillarConfig.LegacyEntries), "swap", len(base.SwapConfig.Entries))
 }
